@@ -39,6 +39,18 @@ PKIND = {"daily": algos.RunDaily, "weekly": algos.RunWeekly, "monthly": algos.Ru
          "quarterly": algos.RunQuarterly, "yearly": algos.RunYearly}
 
 
+class UserAdjust(core.Algo):
+    """a user-written algo (e.g. a management fee): one adjust call, no trailing update"""
+
+    def __init__(self, amount, flow, update):
+        super().__init__()
+        self.amount, self.flow, self.update = amount, flow, update
+
+    def __call__(self, target):
+        target.adjust(self.amount, update=self.update, flow=self.flow)
+        return True
+
+
 def make_algo(a):
     k = a[0]
     if k == "runonce":
@@ -122,6 +134,8 @@ def make_algo(a):
         return algos.RollPositionsAfterDates(key_of(a[1]))
     if k == "replay":
         return algos.ReplayTransactions(key_of(a[1]))
+    if k == "useradjust":
+        return UserAdjust(fx(a[1]), bool(a[2]), bool(a[3]))
     raise ValueError(k)
 
 
